@@ -756,3 +756,17 @@ def cases(tier, seed):
                         ic = "has_symmetric_extension/level=%d/ppt=%s/%dx%d" % (level, ppt, dA, dB)
                         add("symext.accepts_separable", q, ic, terms >= 2)
     return out
+
+
+# =============================================================================================
+# deductive part (prover side) and its replay clauses
+# =============================================================================================
+from props.C15_prove import EXTRA_CLAUSES as _EXTRA  # noqa: E402
+from props.C15_prove import prove  # noqa: E402,F401
+
+CLAUSES.update(_EXTRA)
+LEVEL = "other"
+ENGINES = ["E1-pyvc", "E3-E4-rtc"]
+LEVEL_TEXT = 'Mixed. Proved (E1-term, over callee contracts): is_ppt is is_positive_semidefinite(partial_transpose(mat, [sys-1], dim), atol=tol) and is_npt its negation with the same arguments. The soundness of is_separable / has_symmetric_extension / in_separable_ball verdicts is a bounded run-time contract check with ground truth by construction and return-site coverage.'
+EXPLANATION = LEVEL_TEXT
+TECHNIQUE = "VCs from the real AST discharged by z3 (index contract on the amplitude matrix; formula contracts over uninterpreted library operations) + bounded run-time-checked contracts on the real functions"
